@@ -4,6 +4,8 @@ import (
 	"fmt"
 	"reflect"
 	"sort"
+	"strconv"
+	"strings"
 
 	"github.com/graphql-go/graphql/language/ast"
 	"github.com/graphql-go/graphql/language/printer"
@@ -262,14 +264,20 @@ func init() {
 						if isNullish(inputVal.DefaultValue) {
 							return nil, nil
 						}
-						astVal := astFromValue(inputVal.DefaultValue, inputVal)
+						astVal := astFromValue(inputVal.DefaultValue, inputVal.Type)
+						if astVal == nil {
+							return nil, nil
+						}
 						return printer.Print(astVal), nil
 					}
 					if inputVal, ok := p.Source.(*InputObjectField); ok {
 						if inputVal.DefaultValue == nil {
 							return nil, nil
 						}
-						astVal := astFromValue(inputVal.DefaultValue, inputVal)
+						astVal := astFromValue(inputVal.DefaultValue, inputVal.Type)
+						if astVal == nil {
+							return nil, nil
+						}
 						return printer.Print(astVal), nil
 					}
 					return nil, nil
@@ -745,44 +753,78 @@ func astFromValue(value interface{}, ttype Type) ast.Value {
 		return val
 	}
 
-	if valueVal.Type().Kind() == reflect.Map {
-		// TODO: implement astFromValue from Map to Value
+	// Input objects: one object field per defined input field that has a
+	// value, in field-name order.
+	if ttype, ok := ttype.(*InputObject); ok {
+		if valueVal.Type().Kind() != reflect.Map || valueVal.Type().Key().Kind() != reflect.String {
+			return nil
+		}
+		fields := ttype.Fields()
+		fieldNames := make([]string, 0, len(fields))
+		for fieldName := range fields {
+			fieldNames = append(fieldNames, fieldName)
+		}
+		sort.Strings(fieldNames)
+		objectFields := []*ast.ObjectField{}
+		for _, fieldName := range fieldNames {
+			fieldValue := valueVal.MapIndex(reflect.ValueOf(fieldName).Convert(valueVal.Type().Key()))
+			if !fieldValue.IsValid() {
+				continue
+			}
+			fieldAST := astFromValue(fieldValue.Interface(), fields[fieldName].Type)
+			if fieldAST == nil {
+				continue
+			}
+			objectFields = append(objectFields, ast.NewObjectField(&ast.ObjectField{
+				Name:  ast.NewName(&ast.Name{Value: fieldName}),
+				Value: fieldAST,
+			}))
+		}
+		return ast.NewObjectValue(&ast.ObjectValue{Fields: objectFields})
 	}
 
-	if value, ok := value.(bool); ok {
+	// Leaf types: the literal is written from the serialized (external) form
+	// of the internal value, e.g. the name of an enum value.
+	if ttype, ok := ttype.(*Enum); ok {
+		if name, ok := ttype.Serialize(value).(string); ok {
+			return ast.NewEnumValue(&ast.EnumValue{Value: name})
+		}
+		return nil
+	}
+	if ttype, ok := ttype.(*Scalar); ok {
+		value = ttype.Serialize(value)
+		if isNullish(value) {
+			return nil
+		}
+		valueVal = reflect.ValueOf(value)
+		if valueVal.Type().Kind() == reflect.Ptr {
+			valueVal = valueVal.Elem()
+		}
+	}
+
+	switch valueVal.Kind() {
+	case reflect.Bool:
 		return ast.NewBooleanValue(&ast.BooleanValue{
-			Value: value,
+			Value: valueVal.Bool(),
 		})
-	}
-	if value, ok := value.(int); ok {
-		if ttype == Float {
-			return ast.NewIntValue(&ast.IntValue{
-				Value: fmt.Sprintf("%v.0", value),
-			})
-		}
+	case reflect.Int, reflect.Int8, reflect.Int16, reflect.Int32, reflect.Int64:
 		return ast.NewIntValue(&ast.IntValue{
-			Value: fmt.Sprintf("%v", value),
+			Value: strconv.FormatInt(valueVal.Int(), 10),
 		})
-	}
-	if value, ok := value.(float32); ok {
-		return ast.NewFloatValue(&ast.FloatValue{
-			Value: fmt.Sprintf("%v", value),
+	case reflect.Uint, reflect.Uint8, reflect.Uint16, reflect.Uint32, reflect.Uint64:
+		return ast.NewIntValue(&ast.IntValue{
+			Value: strconv.FormatUint(valueVal.Uint(), 10),
 		})
-	}
-	if value, ok := value.(float64); ok {
-		return ast.NewFloatValue(&ast.FloatValue{
-			Value: fmt.Sprintf("%v", value),
-		})
-	}
-
-	if value, ok := value.(string); ok {
-		if _, ok := ttype.(*Enum); ok {
-			return ast.NewEnumValue(&ast.EnumValue{
-				Value: fmt.Sprintf("%v", value),
-			})
+	case reflect.Float32, reflect.Float64:
+		text := strconv.FormatFloat(valueVal.Float(), 'g', -1, 64)
+		if !strings.ContainsAny(text, ".eE") {
+			// an integral float is written as an integer literal (valid for Float)
+			return ast.NewIntValue(&ast.IntValue{Value: text})
 		}
+		return ast.NewFloatValue(&ast.FloatValue{Value: text})
+	case reflect.String:
 		return ast.NewStringValue(&ast.StringValue{
-			Value: fmt.Sprintf("%v", value),
+			Value: valueVal.String(),
 		})
 	}
 
